@@ -391,6 +391,8 @@ def check(case, res):
     m = case.meta
     if m["kind"] == "wrongmod":
         return check_wrongmod(case, res, vs)
+    if m["kind"] == "many":
+        return check_many(case, res, vs)
     st = res["steps"]
     hist = m["hist"]
 
@@ -528,6 +530,75 @@ USES = ['t = tab(1, vmod(1)); t.put(0, %s);', 't = tab(1, vmod(1)); t.concat(%s)
 for cname, setup, expr in CARRIERS:
     for use in USES:
         WRONG.append(("function fpassw(o:vmod) return integer is begin return o.get(); end; " + setup + " " + (use % expr), cname + ":" + use.split("%s")[1].strip(" ;()") or "use"))
+
+
+# the same node evaluated more than once: first with an object of the module it was compiled for, then with one of the other module
+for use in USES:
+    utag = use.split("%s")[1].strip(" ;()") or "use"
+    WRONG.append(("function fpassw(o:vmod) return integer is begin return o.get(); end; function fre(x) return integer is begin "
+                  + (use % "x") + " return 0; end; begin zz = fre(vmod(1)); zz = fre(vmod(3)); zz = fre(vmod2(2)); exception when others then nop; end; "
+                  "begin zz = fre(vmod2(4)); exception when others then nop; end; zz = fre(vmod(5));", "again-parameter:" + utag))
+    WRONG.append(("function fpassw(o:vmod) return integer is begin return o.get(); end; function fu2(k) return undefined is begin if k != 2 then return vmod(k); end if; "
+                  "return vmod2(k); end; for k in 1 to 3 loop begin " + (use % "fu2(k)") + " exception when others then nop; end; end loop;", "again-loop:" + utag))
+
+
+# one statement with many object temporaries (the temporary pool grows and is reused by the statements that follow): every size
+# around the powers of two, several shapes
+MANY_N = [1, 2, 3, 5, 8, 15, 16, 17, 31, 32, 33, 34, 48, 63, 64, 65, 100, 127, 128, 129, 200, 257, 513]
+MANY_SHAPES = {
+    "sum-of-gets": lambda n: "zz = " + " + ".join("vmod(%d).get()" % (100 + k) for k in range(n)) + ";",
+    "concat-chain": lambda n: "t = tab(0, vmod(99))" + "".join(".concat(vmod(%d))" % (100 + k) for k in range(n)) + "; t = null;",
+    "calls": lambda n: "zz = " + " + ".join("fpass(fret(vmod(%d)))" % (100 + k) for k in range(n)) + ";",
+    "self-chain": lambda n: "b = vmod(100)" + ".self()" * n + "; zz = " + " + ".join("vmod(%d).self().get()" % (200 + k) for k in range(min(n, 40))) + "; b = null;",
+    "failing-at-end": lambda n: "begin zz = " + " + ".join("vmod(%d).get()" % (100 + k) for k in range(n)) + " + 1 / (zz - zz); exception when others then nop; end;",
+}
+
+
+def many_gen(tier):
+    def gen():
+        n = 0
+        for shape, mk in MANY_SHAPES.items():
+            for cnt in MANY_N:
+                if tier != "thorough" and cnt > 129 and shape not in ("sum-of-gets",):
+                    continue
+                for tail in ("", "purgewm 0"):
+                    ops = ["isolate", op_ctx(0, True), op_run(PRELUDE), op_run(mk(cnt)), "vlog",
+                           op_run("zz = vmod(3).get();"), op_run("zz = vmod(4).get() + vmod(5).get();"), op_run("a = vmod(6); a = null;")]
+                    if tail:
+                        ops.append(tail)
+                    ops += ["vlog", "free 0", "vlog"]
+                    yield Case("m%d" % n, ops, {"kind": "many", "shape": shape, "n": cnt, "tail": tail})
+                    n += 1
+    return gen
+
+
+def check_many(case, res, vs):
+    m = case.meta
+    st = res["steps"]
+    if st[3].get("r") != "ok":
+        vs.append(Violation("many:rejected:%s" % m["shape"], "statement with %d temporaries: %s" % (m["n"], st[3]), case))
+        return vs, True
+    created, destroyed = [], {}
+    for s_ in st:
+        for e in parse_log(s_.get("log", "")):
+            if e[0] == "X":
+                vs.append(Violation("many:bad-module-event:%s" % m["shape"], " ".join(e), case))
+            elif e[0] == "C" and e[1] == "vmod":
+                created.append(int(e[2]))
+            elif e[0] == "D" and e[1] == "vmod":
+                destroyed[int(e[2])] = destroyed.get(int(e[2]), 0) + 1
+            elif e[0] == "M" and e[1] == "vmod" and destroyed.get(int(e[2])):
+                vs.append(Violation("many:method-on-destroyed-object:%s" % m["shape"], " ".join(e), case))
+    if len(created) < (m["n"] if m["shape"] != "self-chain" else 1 + min(m["n"], 40)):
+        vs.append(Violation("many:harness", "only %d objects created for n=%d" % (len(created), m["n"]), case))
+    lost = [i for i in created if destroyed.get(i, 0) == 0]
+    twice = [i for i in created if destroyed.get(i, 0) > 1]
+    if lost:
+        vs.append(Violation("many:never-destroyed:%s" % m["shape"], "%d of %d objects of a statement with %d temporaries were never destroyed (first: object %d)" % (
+            len(lost), len(created), m["n"], lost[0]), case))
+    if twice:
+        vs.append(Violation("many:destroyed-twice:%s" % m["shape"], "objects %s destroyed more than once (statement with %d temporaries)" % (twice[:5], m["n"]), case))
+    return vs, True
 
 
 def wrongmod_gen():
@@ -676,6 +747,7 @@ def run(tier):
             total.parts.append({"part": "frontier-bound", "level": lvl, "distinct_states": len(frontier), "expanded": 1500})
             frontier = sorted(frontier, key=lambda h: (len(h), repr(h)))[:1500]
     total.merge(explore("%s-%s-wrong-module" % (PROP, tier), wrongmod_gen(), check, chunk=5, deadline=deadline))
+    total.merge(explore("%s-%s-many-temporaries" % (PROP, tier), many_gen(tier), check, chunk=5, deadline=deadline))
     total.merge(cli_pass(tier))
     rule = ("breadth-first search to depth %d over %d statements (construct, copy, overwrite, store in table/tuple, delete, pass, return, temporaries, "
             "chained self(), other(), copy constructor, INOUT, loop, block with raise, failing argument list, forall, make(), function result, callee "
